@@ -24,14 +24,14 @@ type node struct {
 	E []*node `json:"e,omitempty"`
 }
 
-func nBool(b bool) *node      { return &node{K: "bool", B: b} }
-func nInt(i int32) *node      { return &node{K: "int", I: i} }
-func nStr(s string) *node     { return &node{K: "str", S: s} }
-func nDflt() *node            { return &node{K: "dflt"} }
-func nSet(es ...*node) *node  { return &node{K: "set", E: es} }
-func nTup(es ...*node) *node  { return &node{K: "tup", E: es} }
-func nFn(kvs ...*node) *node  { return &node{K: "fn", E: kvs} }
-func (n *node) pairs() int    { return len(n.E) / 2 }
+func nBool(b bool) *node        { return &node{K: "bool", B: b} }
+func nInt(i int32) *node        { return &node{K: "int", I: i} }
+func nStr(s string) *node       { return &node{K: "str", S: s} }
+func nDflt() *node              { return &node{K: "dflt"} }
+func nSet(es ...*node) *node    { return &node{K: "set", E: es} }
+func nTup(es ...*node) *node    { return &node{K: "tup", E: es} }
+func nFn(kvs ...*node) *node    { return &node{K: "fn", E: kvs} }
+func (n *node) pairs() int      { return len(n.E) / 2 }
 func (n *node) key(i int) *node { return n.E[2*i] }
 func (n *node) val(i int) *node { return n.E[2*i+1] }
 
@@ -62,13 +62,15 @@ func (n *node) depth() int {
 	return d + 1
 }
 
-// ---- canonical form -------------------------------------------------------------------------------
+// ---- canonical forms ------------------------------------------------------------------------------
+// canon(): the MATHEMATICAL form (what a printed TLA+ expression denotes; used by the print oracle, by TLC
+// calibration and by the generators to keep set members / function keys distinct under either reading):
 // bool: T / F ; int: i<dec> ; string: Go-quoted ; defaultInitValue: D ;
 // set: {c1,c2,...} sorted, duplicates collapsed ;
 // function (incl. tuples = functions with domain 1..n, records = functions with string keys):
 //      [k1=>v1,k2=>v2,...] sorted by key canon.
 
-func canonInt(i int64) string { return "i" + strconv.FormatInt(i, 10) }
+func canonInt(i int64) string  { return "i" + strconv.FormatInt(i, 10) }
 func canonStr(s string) string { return strconv.Quote(s) }
 
 func canonSet(elems []string) string {
@@ -153,6 +155,35 @@ func (n *node) canon() string {
 	panic("bad node kind " + n.K)
 }
 
+// kcanon: the kind-distinguishing canonical form used by the EQUAL/HASH/MAP/GOB oracles: in this runtime's
+// universe a tuple is only the same value as another tuple; a function (incl. records, incl. one with domain
+// 1..n) is only the same value as another function. Tuples are written <c1,c2,...>.
+func kcanonTuple(elems []string) string { return "<" + strings.Join(elems, ",") + ">" }
+
+func (n *node) kcanon() string {
+	switch n.K {
+	case "set":
+		es := make([]string, len(n.E))
+		for i, e := range n.E {
+			es[i] = e.kcanon()
+		}
+		return canonSet(es)
+	case "tup":
+		es := make([]string, len(n.E))
+		for i, e := range n.E {
+			es[i] = e.kcanon()
+		}
+		return kcanonTuple(es)
+	case "fn":
+		ps := make([]kv, n.pairs())
+		for i := range ps {
+			ps[i] = kv{n.key(i).kcanon(), n.val(i).kcanon()}
+		}
+		return canonFn(ps)
+	}
+	return n.canon()
+}
+
 // isSeqDomain: fn node whose keys are exactly the ints 1..n (n>=0); returns values in index order.
 func (n *node) seqValues() ([]*node, bool) {
 	if n.K != "fn" {
@@ -173,9 +204,6 @@ func (n *node) seqValues() ([]*node, bool) {
 // skeleton: kind structure of a (shrunk) node, used in finding keys.
 func (n *node) skeleton(depth int) string {
 	name := map[string]string{"bool": "bool", "int": "int", "str": "string", "set": "set", "tup": "tuple", "fn": "function", "dflt": "default"}[n.K]
-	if vs, ok := n.seqValues(); ok && len(vs) > 0 { // the same mathematical value as the tuple
-		return nTup(vs...).skeleton(depth)
-	}
 	if len(n.E) == 0 || depth == 0 {
 		if n.K == "set" || n.K == "tup" || n.K == "fn" {
 			if len(n.E) == 0 {
@@ -228,7 +256,10 @@ func tlaString(s string) string {
 	return sb.String()
 }
 
-func (n *node) render() string {
+func (n *node) render() string { return n.renderD(0) }
+
+// renderD: d numbers the bound variables of nested function constructors.
+func (n *node) renderD(d int) string {
 	switch n.K {
 	case "bool":
 		if n.B {
@@ -251,7 +282,7 @@ func (n *node) render() string {
 		type ce struct{ c, r string }
 		es := make([]ce, len(n.E))
 		for i, e := range n.E {
-			es[i] = ce{e.canon(), e.render()}
+			es[i] = ce{e.canon(), e.renderD(d + 1)}
 		}
 		sort.Slice(es, func(i, j int) bool { return es[i].c < es[j].c })
 		rs := make([]string, len(es))
@@ -262,7 +293,7 @@ func (n *node) render() string {
 	case "tup":
 		rs := make([]string, len(n.E))
 		for i, e := range n.E {
-			rs[i] = e.render()
+			rs[i] = e.renderD(d + 1)
 		}
 		return "<<" + strings.Join(rs, ", ") + ">>"
 	case "fn":
@@ -278,19 +309,20 @@ func (n *node) render() string {
 		if allIdent {
 			rs := make([]string, n.pairs())
 			for i := range rs {
-				rs[i] = n.key(i).S + " |-> " + n.val(i).render()
+				rs[i] = n.key(i).S + " |-> " + n.val(i).renderD(d+1)
 			}
 			sort.Strings(rs)
 			return "[" + strings.Join(rs, ", ") + "]"
 		}
+		v := fmt.Sprintf("fnx%d", d)
 		ks := make([]string, n.pairs())
 		cs := make([]string, n.pairs())
 		for i := range ks {
-			k := n.key(i).render()
+			k := n.key(i).renderD(d + 1)
 			ks[i] = k
-			cs[i] = "fnx = " + k + " -> " + n.val(i).render()
+			cs[i] = v + " = " + k + " -> " + n.val(i).renderD(d+1)
 		}
-		return "[fnx \\in {" + strings.Join(ks, ", ") + "} |-> CASE " + strings.Join(cs, " [] ") + "]"
+		return "[" + v + " \\in {" + strings.Join(ks, ", ") + "} |-> CASE " + strings.Join(cs, " [] ") + "]"
 	}
 	panic("bad node kind")
 }
